@@ -4,6 +4,7 @@ import (
 	"context"
 	"errors"
 	"fmt"
+	"log/slog"
 	"os"
 	"path/filepath"
 	"regexp"
@@ -59,6 +60,29 @@ func pay(n, size int) string {
 	return sb.String()[:size]
 }
 
+// msgHook is a slog handler that calls fn when a record with the given message is logged (see LCB).
+type msgHook struct {
+	arm   string // if set: fn fires at the first msg AFTER a record with this message
+	msg   string
+	armed bool
+	fn    func()
+}
+
+func (h *msgHook) Enabled(context.Context, slog.Level) bool { return true }
+func (h *msgHook) WithAttrs([]slog.Attr) slog.Handler       { return h }
+func (h *msgHook) WithGroup(string) slog.Handler            { return h }
+func (h *msgHook) Handle(_ context.Context, r slog.Record) error {
+	switch {
+	case h.arm != "" && !h.armed:
+		if r.Message == h.arm {
+			h.armed = true
+		}
+	case r.Message == h.msg:
+		h.fn()
+	}
+	return nil
+}
+
 // Tick waits until the wall clock's millisecond has advanced past the last
 // tick of this scenario, so that consecutive file-creating operations carry
 // distinct millisecond timestamps (DESIGN §1.2).
@@ -84,6 +108,7 @@ func (s *Scn) wexec(q string, args ...any) error {
 
 // Do applies one operation of the alphabet and records it.
 func (s *Scn) Do(op string) Outcome {
+	s.opStart = time.Now()
 	o := s.do(op)
 	if s.DistinctMS {
 		// files stamped during this operation are not later than now: the next tick waits past it
@@ -370,9 +395,17 @@ func (s *Scn) do(op string) Outcome {
 			return ill
 		}
 		s.tickIf()
+		delay := time.Duration(s.Cfg.BusyTimeoutMS) * time.Millisecond * 3 / 2
+		if strings.HasSuffix(arg, ":early") {
+			// variant: the commit lands DURING litestream's first lock wait (half a busy timeout after the start),
+			// so the wait succeeds and the same executor pass goes on to copy the commit
+			arg = strings.TrimSuffix(arg, ":early")
+			delay = time.Duration(s.Cfg.BusyTimeoutMS) * time.Millisecond / 2
+		}
 		commitDone := make(chan error, 1)
 		go func() {
-			time.Sleep(time.Duration(s.Cfg.BusyTimeoutMS) * time.Millisecond * 3 / 2)
+			time.Sleep(delay)
+			s.commitPre = time.Now()
 			commitDone <- s.wexec("COMMIT")
 		}()
 		err := s.DB.Checkpoint(ctx, arg)
@@ -386,6 +419,78 @@ func (s *Scn) do(op string) Outcome {
 			return Outcome{} // a checkpoint that gave up on a busy database is not an error of the scenario
 		}
 		return Outcome{Err: cerr}
+	case "LCB":
+		// litestream checkpoint with an application write burst in the middle of it: the burst (arg after the mode,
+		// default 6 single-row commits) is committed when litestream starts the first sync after its checkpoint
+		// PRAGMA (debug messages "checkpoint" then "sync"), i.e. after the WAL was checkpointed/restarted and the
+		// write barrier released, before the post-checkpoint copy reads the WAL.
+		// One fixed interleaving, executed inside the operation. Depends on the debug message "checkpoint";
+		// if the message is never seen the operation is an ordinary LC.
+		if !s.LSOpen || !s.AppUp || s.InTx || s.Remote != nil {
+			return ill
+		}
+		mode, n := arg, 6
+		if i := strings.IndexByte(arg, ':'); i >= 0 {
+			mode = arg[:i]
+			n, _ = strconv.Atoi(arg[i+1:])
+		}
+		s.tickIf()
+		fired := false
+		old := s.DB.Logger
+		s.DB.Logger = slog.New(&msgHook{arm: "checkpoint", msg: "sync", fn: func() {
+			if fired {
+				return
+			}
+			fired = true
+			for i := 0; i < n; i++ {
+				s.rowSeq++
+				_ = s.wexec("INSERT INTO t (v) VALUES (?)", pay(s.rowSeq, 60))
+			}
+		}})
+		err := s.DB.Checkpoint(ctx, mode)
+		s.DB.Logger = old
+		s.recordLedger()
+		return Outcome{Err: err}
+	case "LCC":
+		// litestream PASSIVE/other checkpoint while the APPLICATION is checkpointing too: when litestream starts its
+		// second sync of the checkpoint sequence (the "seal" copy made under its write barrier), the application
+		// starts wal_checkpoint(RESTART) on its own connection with a 150 ms busy timeout: it takes SQLite's
+		// checkpoint lock and then waits for the writer lock, so litestream's own checkpoint PRAGMA finds the
+		// checkpoint lock taken. One fixed interleaving, joined before the operation returns.
+		if !s.LSOpen || !s.AppUp || s.InTx || s.InRd || s.Remote != nil {
+			return ill
+		}
+		s.tickIf()
+		nsync := 0
+		started := false
+		appDone := make(chan struct{})
+		old := s.DB.Logger
+		s.DB.Logger = slog.New(&msgHook{msg: "sync", fn: func() {
+			nsync++
+			if nsync != 2 || started {
+				return
+			}
+			started = true
+			go func() {
+				defer close(appDone)
+				c := context.Background()
+				s.r.ExecContext(c, "PRAGMA busy_timeout = 150")
+				var a, b, d int
+				_ = s.r.QueryRowContext(c, "PRAGMA wal_checkpoint(RESTART)").Scan(&a, &b, &d)
+				s.r.ExecContext(c, "PRAGMA busy_timeout = 0")
+			}()
+			time.Sleep(25 * time.Millisecond) // let the application reach its lock wait
+		}})
+		err := s.DB.Checkpoint(ctx, arg)
+		s.DB.Logger = old
+		if started {
+			<-appDone
+		}
+		s.recordLedger()
+		if err != nil {
+			return Outcome{} // a checkpoint that gave up on a busy database is not an error of the scenario
+		}
+		return Outcome{}
 	case "QSNAP":
 		// A snapshot REQUESTED while a sync is in flight: the sync is paused (hook) at the point where it has
 		// taken the executor and is about to stage its level-0 file; DB.Snapshot is started and queues behind
